@@ -23,7 +23,7 @@ BASE_PROFILE = dict(
     w_struct=dict(leaf=5, tuple=2, list=3, dict=1.5),
     ctxs=["actx", "ov", "attr"],
     try_kinds=["exc", "exc", "base", "none"],
-    exc_cls=["exc", "exc", "exc", "base", "falsy", "frozen", "tasky", "cached"],
+    exc_cls=["exc", "exc", "exc", "base", "falsy", "frozen", "tasky", "cached", "typed"],
     styles=["asynq", "asynq", "asynq", "pure", "method", "classmethod", "staticmethod", "proxy"],
     plain_styles=["plain", "plain", "pureplain"],
     p_reuse=0.15,
